@@ -1,7 +1,7 @@
 """C10 - a Bar always lasts exactly its time signature, or its construction fails (E1)."""
 import sys
 
-from mc import core, lib
+from mc import core, hist, lib
 from scoda.elements.bar import Bar
 from scoda.exceptions.bar_exception import BarException
 from scoda.misc.music_theory import Key
@@ -12,7 +12,7 @@ RULE = ("all (numerator, denominator) in {1..7,12}x{2,4,8,16} x durations {0, ca
         "mid-bar) x key {None, C, F#} x construction route {absolute, relative}; non-trivial = padding, rejection or a "
         "signature event is involved")
 ASSUMPTIONS = ["a redundant repeat of the matching signature may be accepted or rejected (statement is silent)"]
-REQUIRED_FLAGS = ["padded", "rejected_too_long", "rejected_conflicting_signature", "rejected_equal_length_signature", "accepted_exact", "signature_mid_bar",
+REQUIRED_FLAGS = ["after_history", "padded", "rejected_too_long", "rejected_conflicting_signature", "rejected_equal_length_signature", "accepted_exact", "signature_mid_bar",
                   "copy_compared"]
 
 SIGCFG = ["none", "m0", "m1", "c0", "c1", "m0m1", "m0c1", "c0m1", "d0", "e0", "e1", "m0e1"]
@@ -28,9 +28,15 @@ def units(ctx):
     for n in (1, 2, 3, 4, 5, 6, 7, 12):
         for d in (2, 4, 8, 16):
             yield (n, d)
+    yield from hist.hist_units()
 
 
 def gen_cases(unit, ctx):
+    if unit[0] == "hist":
+        for h in hist.hist_of_unit(unit):
+            for n, d in ((4, 4), (7, 8), (12, 8), (3, 2), (5, 16), (2, 4)):
+                yield {"seed": unit[1], "build": unit[2], "hist": h, "n": n, "d": d, "sig": "none", "key": None}
+        return
     n, d = unit
     p = ctx["p"]
     cap = 96 * n // d
@@ -72,10 +78,19 @@ def sig_events(sc, n, d):
 
 def check_case(case, ctx):
     R = core.Res()
-    n, d, dur, notes, sc, key, build = (case[k] for k in ("n", "d", "dur", "notes", "sig", "key", "build"))
+    n, d, sc, key, build = (case[k] for k in ("n", "d", "sig", "key", "build"))
     cap = 96 * n // d
-    events = [] if sc == "none" else sig_events(sc, n, d)
-    seq = (lib.seq_abs if build == "abs" else lib.seq_rel)(notes, events, dur if dur > 0 else None)
+    if "hist" in case:
+        # a live sequence with a history (earlier duration queries, pads, aliased messages from concatenation, ...)
+        live = hist.live_case(case, R, ctx["p"], 0, 1, hp=ctx["p"] - 20)
+        if live is None:
+            return R
+        seq, notes, evd, dur = live
+        events = [["ts", e[1], e[2], e[3]] for e in evd if e[0] == "ts"]
+    else:
+        dur, notes = case["dur"], case["notes"]
+        events = [] if sc == "none" else sig_events(sc, n, d)
+        seq = (lib.seq_abs if build == "abs" else lib.seq_rel)(notes, events, dur if dur > 0 else None)
     conflicting = any((e[2], e[3]) != (n, d) for e in events)
     matching = sum(1 for e in events if (e[2], e[3]) == (n, d))
     must_reject = dur > cap or conflicting
